@@ -1,0 +1,43 @@
+//go:build verif
+// +build verif
+
+package tindex
+
+import "sort"
+
+// VC14Row is the observable part of one tagsDesc reachable through the index maps.
+type VC14Row struct {
+	Src       string
+	Tags      string
+	Readers   int
+	Exclusive bool
+	InTmap    bool
+}
+
+// VC14Snapshot returns, under the service lock, one row per partition present in smap
+// (plus rows for descriptors present only in tmap), sorted by Src.
+func VC14Snapshot(s Service) []VC14Row {
+	ims := s.(*inmemService)
+	ims.lock.Lock()
+	defer ims.lock.Unlock()
+	res := make([]VC14Row, 0, len(ims.smap))
+	for src, td := range ims.smap {
+		t2, ok := ims.tmap[td.tags.Line()]
+		res = append(res, VC14Row{Src: src, Tags: string(td.tags.Line()), Readers: td.readers, Exclusive: td.exclusive, InTmap: ok && t2 == td})
+	}
+	for _, td := range ims.tmap {
+		if t2, ok := ims.smap[td.Src]; !ok || t2 != td {
+			res = append(res, VC14Row{Src: td.Src + "#tmap-only", Tags: string(td.tags.Line()), Readers: td.readers, Exclusive: td.exclusive, InTmap: true})
+		}
+	}
+	sort.Slice(res, func(i, j int) bool { return res[i].Src < res[j].Src })
+	return res
+}
+
+// VC14Freeze takes the service lock and returns the function releasing it: while frozen, every
+// goroutine inside a tindex call stops at its next critical section.
+func VC14Freeze(s Service) func() {
+	ims := s.(*inmemService)
+	ims.lock.Lock()
+	return ims.lock.Unlock
+}
